@@ -593,6 +593,14 @@ def run(tier):
         {"argv": [[255, 254], [97]], "env": [[255, 61, 120], [65, 61, 255], [255, 255, 61, 121]], "keys": [[255], [65], [255, 255], [255, 255, 255]]},
         # a 20 000-byte argument and a 20 000-byte value
         {"argv": [[97], [76] * 20000, []], "env": [[66, 61] + [77] * 20000, [65, 61, 120]], "keys": [[66], [65]]},
+        # names around the word sizes (7, 8, 9, 15, 16, 17 bytes), each a proper prefix of the next; keys: every name,
+        # one byte shorter / longer, last byte changed, first byte changed (a word-wise comparison would show here)
+        {"argv": [[97]],
+         "env": [list(b"ABCDEFGH=8"), list(b"ABCDEFG=7"), list(b"ABCDEFGHI=9"), list(b"ABCDEFGHIJKLMNOP=16"),
+                 list(b"ABCDEFGHIJKLMNO=15"), list(b"ABCDEFGHIJKLMNOPQ=17"), list(b"ABCDEFGH=again")],
+         "keys": [list(k) for k in (b"ABCDEFG", b"ABCDEFGH", b"ABCDEFGHI", b"ABCDEFGHIJKLMNO", b"ABCDEFGHIJKLMNOP", b"ABCDEFGHIJKLMNOPQ",
+                                    b"ABCDEF", b"ABCDEFGHIJ", b"ABCDEFGHIJKLMN", b"ABCDEFGHIJKLMNOPQR", b"ABCDEFGX", b"ABCDEFGHIJKLMNOX",
+                                    b"XBCDEFGH", b"ABCDEFGHIJKLMNOPX")]},
         # 200-byte key and name
         {"argv": [[97]], "env": [[76] * 199 + [61, 49], [76] * 200 + [61, 50], [76] * 201 + [61, 51]], "keys": [[76] * 200, [76] * 198, [76] * 202]},
     ]
